@@ -1002,7 +1002,7 @@ class SourceHandler:
             # We still call the abandonment callback to ensure the fault is logged.
             self.cfg.default_fault_handlers.abandoned_cb(
                 self._params.transaction_id,
-                self._params.cond_code_eof,
+                condition_code,
                 self._params.fp.progress,
             )
             self._abandon_transaction()
